@@ -239,6 +239,11 @@ impl M {
 impl Monitor for M {
     fn case(&mut self, ctx: &mut Ctx) {
         let light = ctx.light();
+        if super::huge::wanted(ctx) {
+            // sizes and offsets that do not fit in 32 bits (one probe per run, see mon/huge.rs)
+            super::huge::message_at_start_of_4gib_slice(ctx);
+            super::huge::stored_message_behind_4gib(ctx, false);
+        }
         if ctx.index % 16 == 5 {
             self.reused_buffer_history(ctx);
         }
